@@ -50,11 +50,13 @@ def gen(rng, tier):
     exact = rng.random() < 0.5
     if exact:
         P, pu, du = rng.choice([(1, 's', None), (2, 's', 's'), (500, 'ms', 's'), (4, 'ms', 'ms'), (1000, 'ms', 's'), (250, 'ms', 's'),
-                                (1, 'ms', 'us'), (8, 'us', 'us')])
+                                (1, 'ms', 'us'), (8, 'us', 'us'),
+                                # a period given in a finer unit than the stamps, above one stamp unit and no whole multiple of it
+                                (1500, 'ms', 's'), (2500, 'us', 'ms'), (1250, 'ms', 's')])
         tol = rng.choice([0.0, 0.25, 0.5, 1.0, 0.125])
     else:
         P, pu, du = rng.choice([(1, 's', None), (1, 's', 's'), (100, 'ms', 's'), (500, 'ms', 'ms'), (10, 'us', 'us'), (3, 's', None),
-                                (20, 'ms', 's'), (1, 's', 'ms'), (5, 'ns', 'ns'), (1000000, 'us', 's')])
+                                (20, 'ms', 's'), (1, 's', 'ms'), (5, 'ns', 'ns'), (1000000, 'us', 's'), (1100, 'ms', 's'), (2500, 'ms', 's')])
         tol = rng.choice([0.1, 0.1, 0.2, 0.05, 0.3])
     nv = rng.randint(1, 2)
     vars_ = common.VARS[:nv]
